@@ -549,4 +549,49 @@ theorem decodeFile_zip_err (o : Ops σ) (buf : Bytes)
       | some xml => exact absurd hu (h xml)
     · simp
 
+/-- the first maximal device-XML candidate is unique -/
+theorem Newest.unique {dev : Nat → Nat → R Bytes} {first n : Nat} {r r' : Option Candidate}
+    (h : Newest dev first n r) (h' : Newest dev first n r') : r = r' := by
+  cases r with
+  | none =>
+    cases r' with
+    | none => rfl
+    | some c' =>
+      obtain ⟨i', hi', hc', _, _⟩ := h'
+      have := h i' hi'
+      rw [this] at hc'; cases hc'
+  | some c =>
+    cases r' with
+    | none =>
+      obtain ⟨i, hi, hc, _, _⟩ := h
+      have := h' i hi
+      rw [this] at hc; cases hc
+    | some c' =>
+      obtain ⟨i, hi, hc, hmax, hfirst⟩ := h
+      obtain ⟨i', hi', hc', hmax', hfirst'⟩ := h'
+      have hii : i = i' := by
+        rcases Nat.lt_trichotomy i i' with hlt | heq | hgt
+        · have h1 := hfirst' i c hlt hc
+          have h2 := hmax i' c' hi' hc'
+          rw [h1] at h2; cases h2
+        · exact heq
+        · have h1 := hfirst i' c' hgt hc'
+          have h2 := hmax' i c hi hc
+          rw [h1] at h2; cases h2
+      subst hii
+      rw [hc] at hc'
+      cases hc'; rfl
+
+/-- with every header readable the scan succeeds -/
+theorem scanP_ok_of_headers (dev : Nat → Nat → R Bytes) (first : Nat) (k i : Nat) (cur : Option Candidate)
+    (hh : ∀ j, i ≤ j → j < i + k → ∃ hj, header dev (entAddr first j) = .ok hj) :
+    ∃ r, scanP dev first k i cur = .ok r := by
+  induction k generalizing i cur with
+  | zero => exact ⟨cur, rfl⟩
+  | succ k ih =>
+    obtain ⟨h0, hh0⟩ := hh i (Nat.le_refl _) (by omega)
+    simp only [entAddr] at hh0
+    simp only [scanP, scanEntryP_eq, hh0, Res.bind_ok, Res.pure_eq]
+    exact ih (i + 1) _ (fun j h1 h2 => hh j (by omega) (by omega))
+
 end CamVerif.GenApiFetch
